@@ -193,6 +193,13 @@ def gen_cases(rng, tier):
         for i in walpha[2:6]:
             cases.append(_case(rng, F_SELECT, st, 0, [walpha[0], walpha[1], list(i)], tabs, "wrappers"))
             cases.append(_case(rng, F_UNION, st, 0, [walpha[1], list(i), walpha[0]], tabs, "wrappers"))
+    for st in range(3):
+        for frm_ in (F_SUBQ, F_CTE):
+            for its in ([walpha[5], walpha[4]], [walpha[0], walpha[4]], [walpha[4], walpha[0]], [walpha[4], walpha[6]]):
+                cs = _case(rng, frm_, st, 0, [list(x) for x in its], tabs, "wrappers")
+                cs["in"][0][5][0] = 2
+                cs["in"][0][5][4] = 0
+                cases.append(cs)
     # the same expression objects selected in the opposite order by a second statement with the same
     # cache key (expressions that differ only in a bound value)
     for st in range(3):
@@ -636,8 +643,9 @@ def impl(case):
                 "form": form,
                 "mode": mode,
                 # the duplicate detection of CursorResultMetaData.__init__ only runs when the number of
-                # distinct primary names differs from the number of compiled columns
-                "gap": n_ctx == 0 or len(set(lkeys)) == n_ctx,
+                # distinct primary names differs from the number of compiled columns or (since 0c26c9c)
+                # from the number of merged records
+                "gap": n_ctx == 0 or (len(set(lkeys)) == n_ctx and len(set(lkeys)) == len(lkeys)),
                 "dnames": dnames,
                 "loose": loose,
                 "vals": vals,
@@ -693,10 +701,19 @@ def oracle(c, obs):
         return None
     o = obs["orc"]
     vals, rowvals = o["vals"], o["rowvals"]
+    form = o["form"]
+    if (form in (F_SUBQ, F_CTE) and vals is not None and len(vals) == len(rowvals) and list(vals) != list(rowvals)
+            and any(it[0] == K_CAST for it in c["in"][0][4])):
+        # (only for cast wrappers: a user column literally called like a generated anonymous label, e.g.
+        # "anon_1", makes the inner select ambiguous in SQL itself - not a lookup matter)
+        # the column of the subquery stands for one inner expression: the outer row must carry that
+        # expression's value at the column's position
+        i = next(j for j in range(len(vals)) if vals[j] != rowvals[j])
+        return "column %d of the select over the subquery carries %r, the inner expression it stands for has the value %r [subquery-proxy]" % (
+            i, rowvals[i], vals[i])
     if vals is None or len(vals) != len(rowvals) or list(vals) != list(rowvals):
         return None        # the statement's positions are not comparable with the generator's markers
     n = len(vals)
-    form = o["form"]
     tag = " [mode=%s%s]" % (o["mode"], " dupes-check-skipped" if o["gap"] else "")
     gen = o.get("generated") or []
     viol = []
@@ -761,6 +778,13 @@ def _natural_name(g, it):
 
 def match_finding(c, what):
     g = c["in"][0]
+    if what.endswith("[subquery-proxy]"):
+        # the proxy of a wrapper (cast) that was given a dedupe label is named like the wrapped column
+        items = g[4]
+        names_ = [_natural_name(g, it) for it in items]
+        if any(it[0] == K_CAST and names_.index(names_[j]) < j for j, it in enumerate(items)):
+            return "C11-subquery-proxy-of-deduped-wrapper"
+        return None
     m = re.match(r"lookup by the column object at position (\d+)(?: \(second statement, compiled cache\))? raised NoSuchColumnError", what)
     if m:
         # a cast placed after a different expression of the same natural name is taken for a repeat
@@ -793,7 +817,11 @@ def match_finding(c, what):
         return None
     if "[mode=none " in what:
         return "C11-plain-text-duplicate-names"
-    return "C11-dupes-check-skipped-count-heuristic"
+    # name matching / textual positional with pairwise distinct cursor names: the remaining part of the
+    # positional finding (keys shared through secondary names only).  A repeated cursor name is detected
+    # since 0c26c9c (finding C11-dupes-check-skipped-count-heuristic, fixed): such a case carries no
+    # "dupes-check-skipped" tag and is reported as a violation
+    return "C11-dupes-check-skipped-positional"
 
 
 LEVEL_TEXT = (
